@@ -62,3 +62,12 @@ Example use_model_implies_spec : spec_check ex_case = true :=
 
 Example use_floor_greatest := c07_floor_greatest (Rat (-7) 2) eq_refl.
 Example use_ceil_least := c07_ceil_least (Rat (-7) 2) eq_refl.
+
+(** unreduced operands: 2/4 and 6/9 behave like 1/2 and 2/3 *)
+Lemma small_2_4 : small (Rat 2 4). Proof. split; reflexivity. Qed.
+Lemma small_6_9 : small (Rat 6 9). Proof. split; reflexivity. Qed.
+Lemma new_2_4 : new (ra (Rat 2 4)) (rb (Rat 2 4)) = Some (Rat 1 2). Proof. vm_compute. reflexivity. Qed.
+Lemma new_6_9 : new (ra (Rat 6 9)) (rb (Rat 6 9)) = Some (Rat 2 3). Proof. vm_compute. reflexivity. Qed.
+Example use_unreduced_same := c07_unreduced_same (Rat 2 4) (Rat 6 9) (Rat 1 2) (Rat 2 3) eq_refl eq_refl small_2_4 small_6_9 new_2_4 new_6_9.
+Example ex_unreduced_add : add (Rat 2 4) (Rat 6 9) = Some (Rat 7 6). Proof. vm_compute. reflexivity. Qed.
+Example use_new_canonical_id := c07_new_canonical_id (Rat (-7) 2) canon_m7_2 eq_refl.
